@@ -222,9 +222,10 @@ func c04(r *vlib.Run) int {
 		c04Check(r, i, typed[i], exps[i], &res)
 	}
 	var hk sync.WaitGroup
-	hk.Add(2)
+	hk.Add(3)
 	go func() { defer hk.Done(); c04Housekeeping(r) }()
 	go func() { defer hk.Done(); c04Interrupt(r) }()
+	go func() { defer hk.Done(); c04ManyFiles(r) }()
 	c04E2E(r)
 	hk.Wait()
 	return n / 2
@@ -500,6 +501,132 @@ func c04E2E(r *vlib.Run) {
 		if bad != "" || res.Panicked() {
 			r.Violation("e2e-follow", map[string]interface{}{"ssh": ssh, "why": bad, "appended": len(expected), "delivered": len(got),
 				"exit": res.Exit, "stderr": vlib.Trunc(string(res.Stderr), 1000), "stdout_tail": vlib.Trunc(lastN(string(res.Stdout), 600), 700)})
+		}
+	})
+}
+
+// c04ManyFiles: one serverless dtail follows several files at once (a glob);
+// every file gets lines appended; all of them have to arrive, per file in
+// order, with their file's label.
+func c04ManyFiles(r *vlib.Run) {
+	n := r.N(2, 8)
+	dir, _ := filepath.EvalSymlinks(r.Dir("c04many"))
+	vlib.Parallel(n, 4, func(i int) {
+		sub := filepath.Join(dir, fmt.Sprintf("m%d", i))
+		os.MkdirAll(sub, 0755)
+		defer os.RemoveAll(sub)
+		nFiles := 4 + i%4
+		var paths []string
+		for f := 0; f < nFiles; f++ {
+			p := filepath.Join(sub, fmt.Sprintf("f%d.log", f))
+			os.WriteFile(p, []byte("OLD-0 keep\nOLD-1 keep\n"), 0644)
+			paths = append(paths, p)
+		}
+		home := serverlessHome(r)
+		var pid int
+		var pmu sync.Mutex
+		cmd := vlib.Cmd{Path: r.Bin("dtail"), Dir: home, Watchdog: 120 * time.Second,
+			Args: []string{"--cfg", "none", "--logger", "stdout", "--logLevel", "error", "--noColor", "--shutdownAfter", "13", "--files", filepath.Join(sub, "*.log")},
+			Env:  []string{"HOME=" + home}, OnStart: func(p int) { pmu.Lock(); pid = p; pmu.Unlock() }}
+		expected := make([][]string, nFiles)
+		var wg sync.WaitGroup
+		wg.Add(1)
+		positioned := 0
+		var writerDone time.Time
+		go func() {
+			defer wg.Done()
+			// start once the files that can be followed at all are positioned (the
+			// descriptor offsets stop changing), at the latest after 2.5 s
+			var startedAt time.Time
+			for {
+				pmu.Lock()
+				p := pid
+				pmu.Unlock()
+				if p != 0 && startedAt.IsZero() {
+					startedAt = time.Now()
+				}
+				// bounded progress: 6 s after the client process exists every file
+				// of the glob is being followed (it takes milliseconds)
+				if !startedAt.IsZero() && time.Since(startedAt) > 6*time.Second {
+					break
+				}
+				positioned = 0
+				if p != 0 {
+					for _, f := range paths {
+						if fdPos(p, f) == 22 {
+							positioned++
+						}
+					}
+				}
+				if positioned == nFiles {
+					break
+				}
+				time.Sleep(5 * time.Millisecond)
+			}
+			for k := 0; k < 40; k++ {
+				for f, p := range paths {
+					l := fmt.Sprintf("many%03d-file%d-%d appended to one of several followed files", k, f, i)
+					expected[f] = append(expected[f], l)
+					if fd, err := os.OpenFile(p, os.O_APPEND|os.O_WRONLY, 0644); err == nil {
+						fd.WriteString(l + "\n")
+						fd.Close()
+					}
+				}
+				time.Sleep(40 * time.Millisecond)
+			}
+			writerDone = time.Now()
+		}()
+		res := vlib.RunCmd(cmd)
+		exitAt := time.Now()
+		wg.Wait()
+		r.Eval(fmt.Sprintf("manyfiles|%d|%d", i, nFiles))
+		r.Count("follows_of_several_files_at_once", 1)
+		if res.TimedOut {
+			r.Inconclusive("dtail-manyfiles-watchdog")
+			return
+		}
+		got := make([][]string, nFiles)
+		bad := ""
+		for _, l := range strings.Split(string(res.Stdout), "\n") {
+			if !strings.HasPrefix(l, "REMOTE|") {
+				continue
+			}
+			p := strings.SplitN(l, "|", 6)
+			if len(p) != 6 {
+				continue
+			}
+			var k, f, ii int
+			if _, err := fmt.Sscanf(p[5], "many%03d-file%d-%d", &k, &f, &ii); err != nil || f < 0 || f >= nFiles {
+				if !strings.HasPrefix(p[5], "OLD-") {
+					continue // a cut last record
+				}
+				bad = "content that was in the file before the follow began was delivered: " + p[5]
+				break
+			}
+			if p[4] != fmt.Sprintf("f%d.log", f) {
+				bad = fmt.Sprintf("line of file f%d.log labelled %q", f, p[4])
+				break
+			}
+			got[f] = append(got[f], p[5])
+		}
+		if positioned < nFiles && bad == "" {
+			bad = fmt.Sprintf("only %d of the %d files of the glob were being followed 6 s after the client had started", positioned, nFiles)
+		}
+		complete := !writerDone.IsZero() && writerDone.Before(exitAt.Add(-2*time.Second))
+		for f := 0; f < nFiles && bad == ""; f++ {
+			for k := range got[f] {
+				if k >= len(expected[f]) || got[f][k] != expected[f][k] {
+					bad = fmt.Sprintf("file f%d.log: delivered #%d is %q", f, k, got[f][k])
+					break
+				}
+			}
+			if bad == "" && complete && len(got[f]) < len(expected[f]) {
+				bad = fmt.Sprintf("file f%d.log: only %d of %d appended lines delivered (%d of %d files were positioned when the writer began)", f, len(got[f]), len(expected[f]), positioned, nFiles)
+			}
+			r.Count("manyfiles_lines_checked", len(got[f]))
+		}
+		if bad != "" || res.Panicked() {
+			r.Violation("follow-of-several-files", map[string]interface{}{"why": bad, "files": nFiles, "exit": res.Exit, "stderr": vlib.Trunc(string(res.Stderr), 800)})
 		}
 	})
 }
